@@ -85,6 +85,28 @@ impl ModelWriter {
     pub fn new(fail_at: usize, flush_fails: bool) -> Self {
         ModelWriter { log: [0; WLOG], n: 0, fail_at, flush_fails, flushes: 0, calls: 0 }
     }
+    /// one `write` call: accepts a nondeterministic non-empty PREFIX of `b` (the Write contract allows
+    /// short writes), or fails at the failure point.  postcard must never rely on `write` taking everything.
+    pub fn accept_some(&mut self, b: &[u8]) -> Result<usize, ()> {
+        if b.len() == 0 {
+            return Ok(0);
+        }
+        let limit = if self.fail_at < WLOG { self.fail_at } else { WLOG };
+        let room = if self.n < limit { limit - self.n } else { 0 };
+        if room == 0 {
+            return Err(());
+        }
+        let max = if b.len() <= room { b.len() } else { room };
+        let k: usize = kani::any();
+        kani::assume(k >= 1 && k <= max);
+        let mut i = 0;
+        while i < k {
+            self.log[self.n + i] = b[i];
+            i += 1;
+        }
+        self.n += k;
+        Ok(k)
+    }
     /// accept `b` completely, or accept the prefix that fits before the failure point and fail
     pub fn accept_all(&mut self, b: &[u8]) -> bool {
         self.calls += 1;
@@ -122,11 +144,7 @@ mod api {
     }
     impl io::Write for ModelWriter {
         fn write(&mut self, b: &[u8]) -> io::Result<usize> {
-            if self.accept_all(b) {
-                Ok(b.len())
-            } else {
-                Err(io::Error::from(io::ErrorKind::Other))
-            }
+            self.accept_some(b).map_err(|_| io::Error::from(io::ErrorKind::Other))
         }
         fn write_all(&mut self, b: &[u8]) -> io::Result<()> {
             if self.accept_all(b) {
@@ -188,11 +206,7 @@ mod api {
     }
     impl Write for ModelWriter {
         fn write(&mut self, b: &[u8]) -> Result<usize, ErrorKind> {
-            if self.accept_all(b) {
-                Ok(b.len())
-            } else {
-                Err(ErrorKind::Other)
-            }
+            self.accept_some(b).map_err(|_| ErrorKind::Other)
         }
         fn write_all(&mut self, b: &[u8]) -> Result<(), ErrorKind> {
             if self.accept_all(b) {
@@ -248,11 +262,7 @@ mod api {
     }
     impl Write for ModelWriter {
         fn write(&mut self, b: &[u8]) -> Result<usize, ErrorKind> {
-            if self.accept_all(b) {
-                Ok(b.len())
-            } else {
-                Err(ErrorKind::Other)
-            }
+            self.accept_some(b).map_err(|_| ErrorKind::Other)
         }
         fn write_all(&mut self, b: &[u8]) -> Result<(), ErrorKind> {
             if self.accept_all(b) {
